@@ -93,13 +93,16 @@ def sessions(ctx):
 
 
 def run(ctx):
-    return sessbase.run_property(ctx, 'C04',
+    rep = sessbase.run_property(ctx, 'C04',
         'P1: TLC checks NamesInOrder / OneOpenPerTag / Isolation / SoloEquivalence / announce-once / closed-once over all '
         'interleavings of two connections that use the same object ids; P2: the interleavings are replayed through the tool; '
         'P3: random logs with 2-5 tagged connections, and random open/message/close sequences driven directly at the '
         'connection-id interface (re-opened ids, closes of unknown ids). Notices, X: prefixes, ConnectionList projections are '
         'compared with Session!Step by TLC.',
         [('MC_Session_conns.cfg', 'C04 interleavings', {'MaxLen': 5})], sessions(ctx))
+    # ... and as a real process in file mode
+    sessbase.process_batch(ctx, rep, ['new', 'closed', 'connline'], ctx.pick(12, 120), 1000429, nconn=(2, 4))
+    return rep
 
 
 def replay(ctx, data):
